@@ -36,6 +36,9 @@ META = {
 }
 
 
+SHARED_KM = {"n_init": 1}
+
+
 def default_cluster_subjects():
     S = SP.Subject
     return [
@@ -43,6 +46,11 @@ def default_cluster_subjects():
         S("ProbCover[cluster defaults]", "ProbCover", {}, None),
         S("Clue[cluster defaults]", "Clue", {}, "pwc", cost=2),
         S("DropQuery[cluster defaults]", "DropQuery", {}, "pwc", cost=2),
+        # a caller-owned, non-empty cluster_algo_dict without random_state (the same dict object is shared by twin strategies)
+        S("TypiClust[cluster n_init]", "TypiClust", {"cluster_algo_dict": SHARED_KM}, None),
+        S("ProbCover[cluster n_init]", "ProbCover", {"cluster_algo_dict": SHARED_KM}, None),
+        S("Clue[cluster n_init]", "Clue", {"cluster_algo_dict": SHARED_KM}, "pwc", cost=2),
+        S("DropQuery[cluster n_init]", "DropQuery", {"cluster_algo_dict": SHARED_KM}, "pwc", cost=2),
     ]
 
 
